@@ -27,6 +27,12 @@ pub struct TimeoutCase {
     /// 3 accept_with_timeout
     #[serde(default)]
     pub origin: u8,
+    /// what happens on the same listener / stream after the first call timed out (ops 0, 1, 3):
+    /// 0 nothing; 1 the same timed call again (it has to wait its whole limit again); 2 the peer acts
+    /// (connects / sends three bytes) and the timed call with a long limit must deliver that; 3 (op 3) the peer
+    /// sends three bytes and a plain `read` must deliver them
+    #[serde(default)]
+    pub again: u8,
 }
 
 pub fn run_timeout(c: &TimeoutCase) -> CaseResult {
@@ -90,7 +96,51 @@ fn inner(c: &TimeoutCase) -> Result<CaseReport, Stop> {
                 sc::verif::clear_plan();
                 return Err(stop_fail(format!("{opname}|never-timed-out|blocked in an untimed wait"), format!("{opname}({d:?}) with nobody connecting was still parked in {wait} {el:?} after the call; it came back only when the harness connected")));
             }
-            (r?, el)
+            let first = r?;
+            if c.again != 0 && matches!(&first, Err(e) if ek(e) == EK::Timeout) && el >= d {
+                sc::verif::clear_plan();
+                let (path, port) = (b.path.clone(), b.port);
+                if c.again == 1 {
+                    let hw = HangWatch::start(d + Duration::from_millis(1500), || true, move || {
+                        let c = if path.is_empty() { libc_tcp_connect(port, false) } else { libc_unix_connect(&path) };
+                        std::thread::sleep(Duration::from_millis(300));
+                        drop(c);
+                    });
+                    let t1 = Instant::now();
+                    let r2 = no_panic(opname, || match &mut b.l {
+                        TinyListener::U(l) => UnixListener::accept_with_timeout(l, d).map(|_s| true),
+                        TinyListener::T(l) => l.accept_with_timeout(d).map(|_s| true),
+                    });
+                    let el2 = t1.elapsed();
+                    if let Some(wait) = hw.finish() {
+                        return Err(stop_fail(format!("{opname}|never-timed-out|second call on the same listener"), format!("the second {opname}({d:?}) on a listener whose first timed accept had timed out was still parked in {wait} {el2:?} after the call")));
+                    }
+                    match r2? {
+                        Err(e) if ek(&e) == EK::Timeout => {
+                            if el2 < d {
+                                return Err(stop_fail(format!("{opname}|early-timeout|second call on the same listener"), format!("the second {opname}({d:?}) on the same listener returned Timeout after {el2:?} (the first one after {el:?})")));
+                            }
+                        }
+                        Err(e) if is_resource(&ek(&e)) => return Err(Stop::Inconclusive(format!("{opname}: {e}"))),
+                        Err(e) => return Err(stop_fail(format!("{opname}|{}|second call on the same listener", ek_name(&ek(&e))), format!("the second {opname}({d:?}) with nobody connecting returned {e}"))),
+                        Ok(_) => return Err(stop_fail(format!("{opname}|completed|silent peer"), format!("the second {opname}({d:?}) completed although nobody connected"))),
+                    }
+                    rep.class("second-timed-call-on-the-same-object");
+                } else {
+                    let cl = b.libc_connect()?;
+                    let r2 = no_panic(opname, || match &mut b.l {
+                        TinyListener::U(l) => UnixListener::accept_with_timeout(l, Duration::from_secs(3)).map(|_s| true),
+                        TinyListener::T(l) => l.accept_with_timeout(Duration::from_secs(3)).map(|_s| true),
+                    })?;
+                    drop(cl);
+                    match r2 {
+                        Ok(_) => rep.class("peer-acts-after-a-timeout-and-is-served"),
+                        Err(e) if is_resource(&ek(&e)) => return Err(Stop::Inconclusive(format!("{opname}: {e}"))),
+                        Err(e) => return Err(stop_fail(format!("{opname}|{}|connection pending, after an earlier timeout", ek_name(&ek(&e))), format!("after a first {opname}({d:?}) had timed out a client connected; {opname}(3 s) on the same listener returned {e}"))),
+                    }
+                }
+            }
+            (first, el)
         }
         2 => {
             opname = "TcpStream::connect_with_timeout";
@@ -180,6 +230,44 @@ fn inner(c: &TimeoutCase) -> Result<CaseReport, Stop> {
             drop(intr);
             returned.store(true, std::sync::atomic::Ordering::SeqCst);
             let _ = wd.join();
+            if c.again != 0 && !stuck.load(std::sync::atomic::Ordering::SeqCst) && matches!(&r, Ok(Err(e)) if ek(e) == EK::Timeout) && el >= d {
+                sc::verif::clear_plan();
+                let origin = ["connect", "accept", "try_accept", "accept_with_timeout"][c.origin.min(3) as usize];
+                if c.again == 1 {
+                    let pfd = peer.fd();
+                    let hw = HangWatch::start(d + Duration::from_millis(1500), || true, move || unsafe {
+                        libc::write(pfd, b"!".as_ptr().cast(), 1);
+                    });
+                    let t1 = Instant::now();
+                    let r2 = no_panic(opname, || s.read_with_timeout(&mut buf, d).map(|_n| true));
+                    let el2 = t1.elapsed();
+                    if let Some(wait) = hw.finish() {
+                        return Err(stop_fail(format!("{opname}|never-timed-out|second call on the same stream"), format!("the second {opname}({d:?}) on a stream (from {origin}) whose first timed read had timed out was still parked in {wait} {el2:?} after the call")));
+                    }
+                    match r2? {
+                        Err(e) if ek(&e) == EK::Timeout => {
+                            if el2 < d {
+                                return Err(stop_fail(format!("{opname}|early-timeout|second call on the same stream"), format!("the second {opname}({d:?}) on the same stream returned Timeout after {el2:?} (the first one after {el:?})")));
+                            }
+                        }
+                        Err(e) if is_resource(&ek(&e)) => return Err(Stop::Inconclusive(format!("{opname}: {e}"))),
+                        Err(e) => return Err(stop_fail(format!("{opname}|{}|second call on the same stream", ek_name(&ek(&e))), format!("the second {opname}({d:?}) against the silent peer returned {e}"))),
+                        Ok(_) => return Err(stop_fail(format!("{opname}|completed|silent peer"), format!("the second {opname}({d:?}) completed although the peer never acted"))),
+                    }
+                    rep.class("second-timed-call-on-the-same-object");
+                } else {
+                    libc_write_all(peer.fd(), b"xyz").map_err(|e| Stop::Inconclusive(format!("peer write: errno {e}")))?;
+                    let mut got = [0u8; 64];
+                    let what = if c.again == 2 { "TcpStream::read_with_timeout" } else { "TcpStream::read" };
+                    let r2 = no_panic(what, || if c.again == 2 { s.read_with_timeout(&mut got, Duration::from_secs(3)) } else { tiny_std::io::Read::read(&mut s, &mut got) })?;
+                    match r2 {
+                        Ok(n) if n >= 1 && n <= 3 && got[..n] == b"xyz"[..n] => rep.class("peer-acts-after-a-timeout-and-is-served"),
+                        Ok(n) => return Err(stop_fail(format!("{what}|wrong-bytes|after an earlier timeout"), format!("after a first {opname}({d:?}) had timed out the peer sent \"xyz\"; {what} on the same stream (from {origin}) returned {n} bytes {:?}", &got[..n.min(8)]))),
+                        Err(e) if is_resource(&ek(&e)) => return Err(Stop::Inconclusive(format!("{what}: {e}"))),
+                        Err(e) => return Err(stop_fail(format!("{what}|{}|data pending, after an earlier timeout", ek_name(&ek(&e))), format!("after a first {opname}({d:?}) had timed out the peer sent three bytes; {what} on the same stream (from {origin}) returned {e}"))),
+                    }
+                }
+            }
             drop(peer);
             if stuck.load(std::sync::atomic::Ordering::SeqCst) {
                 sc::verif::clear_plan();
@@ -234,5 +322,5 @@ fn inner(c: &TimeoutCase) -> Result<CaseReport, Stop> {
 }
 
 pub fn timeout_strategy() -> impl Strategy<Value = TimeoutCase> {
-    (prop_oneof![1 => Just(0u8), 1 => Just(1u8), 1 => Just(2u8), 3 => Just(3u8)], prop_oneof![3 => 1000u32..5000, 3 => 5000u32..20_000, 1 => 20_000u32..=80_000], 0u16..1000, prop_oneof![3 => Just(0u8), 1 => Just(1u8), 1 => Just(2u8), 2 => Just(3u8)], 0u8..4).prop_map(|(op, micros, nanos, eintr, origin)| TimeoutCase { op, micros, nanos, eintr, origin })
+    (prop_oneof![1 => Just(0u8), 1 => Just(1u8), 1 => Just(2u8), 3 => Just(3u8)], prop_oneof![3 => 1000u32..5000, 3 => 5000u32..20_000, 1 => 20_000u32..=80_000], 0u16..1000, prop_oneof![3 => Just(0u8), 1 => Just(1u8), 1 => Just(2u8), 2 => Just(3u8)], 0u8..4, prop_oneof![2 => Just(0u8), 1 => Just(1u8), 1 => Just(2u8), 1 => Just(3u8)]).prop_map(|(op, micros, nanos, eintr, origin, again)| TimeoutCase { op, micros, nanos, eintr, origin, again: if op != 3 && again == 3 { 2 } else { again } })
 }
